@@ -21,11 +21,11 @@ type chain struct {
 	netID  base.NetworkID
 	local  base.LocalNode
 	others []base.LocalNode
-	kinds  []string                      // kinds[k-1] of voteproof k
-	vps    []base.Voteproof              // vps[k-1]
+	kinds  []string                         // kinds[k-1] of voteproof k
+	vps    []base.Voteproof                 // vps[k-1]
 	prs    map[string]base.ProposalSignFact // by proposal fact hash
-	bms    map[int]base.BlockMap         // k of "accept" -> block map Y saves
-	kOf    map[string]int                // stage point string -> k
+	bms    map[int]base.BlockMap            // k of "accept" -> block map Y saves
+	kOf    map[string]int                   // stage point string -> k
 	ballot base.Ballot
 }
 
